@@ -219,6 +219,8 @@ def run(ctx):
         "[-2^63, 2^64) and all non-integers are floats, which the integer schema types reject",
         "JSON values in memory hold valid UTF-8 strings and fewer than 2^32 array elements / 2^33 string bytes (json_wf)",
         "base64 decoding is the base64 crate's (diffed, not modelled)",
+        "converse theorems: no repeated field / variant names, <= 65536 enum variants, u32 array sizes (ty_distinct_fields), byte-valued input, "
+        "and the leaf text forms parse back (leaves_rt: proved for the stub, C16's theorems for the real codecs, harness mode leaf)",
     ]
     ok, info = c.coq_prove(ctx)
     proof_broken = None
